@@ -985,7 +985,11 @@ void Exec::run_op(const Op& op) {
     }
     case OK_ATOMFAC: {
       double f0 = -1, fp = -1, fpp = -1;
-      int r = L(Atomic_Factors(op.i[0], op.d[0], op.d[1], op.d[2], (op.i[1] & 1) ? &f0 : nullptr, (op.i[1] & 2) ? &fp : nullptr, (op.i[1] & 4) ? &fpp : nullptr, ep));
+      // bit 3: the caller passes one variable for all requested outputs (the prototype has no `restrict`)
+      double* pf0 = (op.i[1] & 1) ? &f0 : nullptr;
+      double* pfp = (op.i[1] & 2) ? ((op.i[1] & 8) ? &f0 : &fp) : nullptr;
+      double* pfpp = (op.i[1] & 4) ? ((op.i[1] & 8) ? &f0 : &fpp) : nullptr;
+      int r = L(Atomic_Factors(op.i[0], op.d[0], op.d[1], op.d[2], pf0, pfp, pfpp, ep));
       g.i32(r); g.dbl(f0); g.dbl(fp); g.dbl(fpp);
       failed_sentinel = r == 0;
       break;
